@@ -326,6 +326,41 @@ def u_eom(chk):
     u_bounds(chk)
     declared("EOM.solveWall", "pressAbsErrTol = 1e-8 (absolute pressure tolerance) for the pressure evaluations at the ends of the window")
     declared("EOM.findPlasmaProfilePoint", "abs(Tnucl - Tplus) < 1e-10 (detonation test) and xtol=1e-10 on a temperature")
+    u_declared_site_plasma_point(chk)
+
+
+def u_declared_site_plasma_point(chk):
+    """The declared absolute-tolerance site of findPlasmaProfilePoint is what the declaration says: the ONLY comparison of the temperature
+    difference T+ - Tn with anything is the detonation test against the literal 1e-10 (harmless: it only has to separate T+ == Tn from
+    T+ > Tn).  A larger or configurable threshold there makes the branch - and with it the wall velocity - depend on the unit system."""
+    from . import C04_plasma as c4
+    from wgvc.api import loop_spec
+    fn = "equationOfMotion.EOM.findPlasmaProfilePoint"
+    c1, c2, vmid, Tp, Tm = real("c1"), real("c2"), real("velocityMid"), real("Tplus"), real("Tminus")
+    reg = c4.eom_registry()
+    reg["EOM.temperatureProfileEqLHS"] = lambda it, so, a, k: c4.LHS(a[2], a[3], a[4])
+    reg["EOM.plasmaVelocity"] = lambda it, so, a, k: specfun("vPlasmaF")(a[1], a[2])
+    reg["EOM.deltaToTmunu"] = lambda it, so, a, k: (real("Tout30"), real("Tout33"))
+    havoc = {"tempAtMinimum": lambda it: it.fresh_real("tempAtMinimum"), "testTemp": lambda it: it.fresh_real("testTemp"), "i": lambda it: it.fresh_int("i")}
+    loops = {("EOM.findPlasmaProfilePoint", 0): loop_spec(lambda it, e: [sp.true], havoc)}
+
+    def mk(it):
+        for c in (Gt(Tp, 0), Gt(Tm, 0)):
+            it.assume(c)
+        return c4.make_eom(), [integer("index"), c1, c2, vmid, as_array(c4.PHI), as_array(c4.DPHI), Opaque("deltas"), Tp, Tm], {}, {}
+    paths = chk.summarize("equationOfMotion", "EOM.findPlasmaProfilePoint", mk, registry=reg, externals=stubs.EXTERNALS, loop_specs=loops, record=False)
+    Tn = real("Tnucl")
+    allowed = Lt(sp.Abs(Tn - Tp), sym.R(1, 10**10))
+    seen, bad = 0, []
+    for p in paths:
+        for atom in p.pc:
+            for rel in sym.to_sym(atom).atoms(sp.core.relational.Relational):
+                if Tn in rel.free_symbols:
+                    seen += 1
+                    if not (rel == allowed or rel == sp.Not(allowed) or rel.canonical == allowed.canonical or sp.Not(rel).canonical == allowed.canonical):
+                        bad.append(str(rel))
+    chk.vc("findPlasmaProfilePoint.declared-absolute-tolerance-is-the-literal-1e-10", [], sym.to_sym(seen > 0 and not bad), func=fn, kind="units",
+           meta={"comparisons_with_Tnucl": seen, "undeclared": sorted(set(bad))[:5]})
 
 
 def u_bounds(chk):
